@@ -48,8 +48,19 @@ pub fn build_source(case: &Value) -> (Vec<u8>, String) {
     e.push((6, XEntry::InUse { off: o, gen: 0 }));
     let o = d.stream(7, 0, "/N 1", b"ICC-PROFILE-BYTES", None, false);
     e.push((7, XEntry::InUse { off: o, gen: 0 }));
-    // stored hex-encoded: the stored bytes and the decoded bytes differ
-    let o = d.stream(8, 0, "/Type /XObject /Subtype /Form /BBox [0 0 9 9] /Filter /ASCIIHexDecode", &hex(b"0 0 9 9 re f"), None, false);
+    // stored encoded: the stored bytes and the decoded bytes differ. Three storage forms, chosen by the shape of the case:
+    // one filter; two filters of which the second has parameters (a predictor); two filters with parameters each
+    let form_ops: &[u8] = b"0 0 9 9 re f";
+    let (fdict, fdata): (&str, Vec<u8>) = match (n + used.len() as u64) % 3 {
+        0 => ("/Filter /ASCIIHexDecode", hex(form_ops)),
+        1 => ("/Filter [/ASCIIHexDecode /FlateDecode] /DecodeParms [null << /Predictor 12 /Columns 4 >>]",
+              hex(&crate::refcodec::zlib(&crate::refcodec::png_filter(form_ops, 4, 1, &[2])))),
+        _ => ("/Filter [/FlateDecode /LZWDecode] /DecodeParms [<< /Predictor 12 /Columns 7 >> << /EarlyChange 0 >>]",
+              { let l = crate::refcodec::lzw_encode(form_ops, false); let mut padded = l.clone(); while padded.len() % 7 != 0 { padded.push(0); }
+                // the LZW text is padded to whole predictor rows; the decoder stops at its end-of-data code
+                crate::refcodec::zlib(&crate::refcodec::png_filter(&padded, 7, 1, &[2])) }),
+    };
+    let o = d.stream(8, 0, &format!("/Type /XObject /Subtype /Form /BBox [0 0 9 9] {}", fdict), &fdata, None, false);
     e.push((8, XEntry::InUse { off: o, gen: 0 }));
     for k in 1..=n {
         let refs: Vec<String> = ids(&edges[k as usize - 1]).iter().map(|r| format!("{} 0 R", 10 + r)).collect();
@@ -165,7 +176,7 @@ pub fn run(cases_path: &str, report_path: &str, _opts: &[String]) {
                         for u in &used {
                             let ok = match (u.as_str(), &res) {
                                 ("gs", Some(rs)) => rs.graphics_states.get("GS1").map(|g| g.line_width == Some(2.5)).unwrap_or(false),
-                                ("xobject", Some(rs)) => rs.xobjects.get("R1").map(|x| r.resolve(x.get_inner()).ok().and_then(|p| match p { Primitive::Stream(st) => st.raw_data(&r).ok().map(|d| &*d == &hex(b"0 0 9 9 re f")[..] && pdf::object::Stream::<()>::from_stream(st.clone(), &r).and_then(|s| s.data(&r)).map(|d| &*d == b"0 0 9 9 re f").unwrap_or(false)), _ => None }).unwrap_or(false)).unwrap_or(false),
+                                ("xobject", Some(rs)) => rs.xobjects.get("R1").map(|x| r.resolve(x.get_inner()).ok().and_then(|p| match p { Primitive::Stream(st) => Some(pdf::object::Stream::<()>::from_stream(st.clone(), &r).and_then(|s| s.data(&r)).map(|d| d.starts_with(b"0 0 9 9 re f") && d[12..].iter().all(|&b| b == 0)).unwrap_or(false)), _ => None }).unwrap_or(false)).unwrap_or(false),
                                 ("font", Some(rs)) => rs.fonts.get("R1").map(|l| l.load(&r).map(|ft| ft._other.get("Marker") == Some(&Primitive::Integer(case["resobj"]["font"].as_i64().unwrap() as i32))).unwrap_or(false)).unwrap_or(false),
                                 ("colorspace", Some(rs)) => rs.color_spaces.contains_key("CS1"),
                                 _ => false,
